@@ -478,6 +478,9 @@ def replay_workers(d, case, runner, mods):
             return getattr(multiprocessing, n)
 
         def Pool(self, *a, **k):
+            # a process count the code states itself is honoured (Pool(cpu_count() - 1) on a one-CPU machine is Pool(0))
+            if (a and a[0] is not None) or k.get('processes') is not None:
+                return real_Pool(*a, **k)
             return real_Pool(self.w)
 
         def cpu_count(self):
